@@ -458,6 +458,9 @@ KINDS = {
     "True": N("bool", True), "False": N("bool", False),
     "np.int64(1)": N("np.int64", 1), "np.int64(0)": N("np.int64", 0),
     "np.int64(3)": N("np.int64", 3),
+    "0.5": N("float", 0.5), "2.0": N("float", 2.0), "-2": N("int", -2),
+    "Power3": ["bin", "**", V("y"), N("int", 3)],
+    "PowerVar": ["bin", "**", V("y"), V("z")],
 }
 KINDS_R = dict(KINDS)
 KINDS_R.update({"Variable": V("w"), "Sum": ["bin", "+", V("w"), V("x")],
@@ -521,7 +524,13 @@ def program(draw, depth=4, ops=tuple(BIN), mat=False):
             if op == "**":
                 ex = d(st.sampled_from([N("int", 0), N("int", 1), N("int", 2),
                                         N("int", 3), N("int", -1), V("k"),
-                                        N("bool", True), N("float", 1.0)]))
+                                        N("bool", True), N("float", 1.0),
+                                        N("float", 0.5), N("float", 2.0), N("float", 1.5),
+                                        N("float", -0.5)]))
+                if d(st.integers(0, 3)) == 0:   # power of a power
+                    inner = ["bin", "**", rec(depth - 1), d(st.sampled_from(
+                        [N("int", 2), N("int", 3), N("float", 2.0), N("int", -2), V("k")]))]
+                    return ["bin", "**", inner, ex]
                 if d(st.integers(0, 5)) == 0:
                     return ["bin", "**", d(st.sampled_from(NUMS)), rec(depth - 1)]
                 return ["bin", "**", rec(depth - 1), ex]
